@@ -259,6 +259,56 @@ pub fn gen_wdwarf(ch: &mut Choices, cx: &mut Ctx) -> (WDwarf, Expect) {
             }
         }
     }
+    // entry references from expressions (in attributes and in location lists): only the operations whose operand is a
+    // fixed-size field patched after all offsets are known, so that any direction and any unit is a legal target
+    let mut has_expr_ref = false;
+    {
+        let added: Vec<Vec<usize>> = units.iter().map(|u| (0..u.entries.len()).filter(|i| !u.entries[*i].never_added).collect()).collect();
+        let mut ref_op = |ch: &mut Choices, ui: usize| -> WOp {
+            let tu = ch.below(nunits);
+            let te = added[tu][ch.below(added[tu].len())];
+            let same = added[ui][ch.below(added[ui].len())];
+            match ch.below(5) {
+                0 => WOp::Call(same),
+                1 => WOp::CallRef(tu, te),
+                2 => WOp::ImplicitPointer(tu, te, ch.range(-3, 300)),
+                3 => WOp::VariableValue(tu, te),
+                _ => WOp::ParameterRef(same),
+            }
+        };
+        for ui in 0..nunits {
+            for ei in 0..units[ui].entries.len() {
+                for ai in 0..units[ui].entries[ei].attrs.len() {
+                    if matches!(units[ui].entries[ei].attrs[ai].1, WVal::Exprloc(_)) && ch.chance(50) {
+                        let op = ref_op(ch, ui);
+                        if let WVal::Exprloc(ops) = &mut units[ui].entries[ei].attrs[ai].1 {
+                            let at = ch.below(ops.len() + 1);
+                            ops.insert(at, op);
+                            has_expr_ref = true;
+                        }
+                    }
+                }
+            }
+            for li in 0..units[ui].locs.len() {
+                for k in 0..units[ui].locs[li].len() {
+                    if ch.chance(70) {
+                        let op = ref_op(ch, ui);
+                        match &mut units[ui].locs[li][k] {
+                            WLoc::OffsetPair(_, _, ops) | WLoc::StartEnd(_, _, ops) | WLoc::StartLength(_, _, ops) | WLoc::DefaultLocation(ops) => {
+                                let at = ch.below(ops.len() + 1);
+                                ops.insert(at, op);
+                                has_expr_ref = true;
+                            }
+                            WLoc::BaseAddress(_) => {}
+                        }
+                    }
+                }
+            }
+        }
+    }
+    if has_expr_ref {
+        cx.label("entry reference inside an expression");
+    }
     // `set` replaces an earlier attribute of the same name: judge the references that remain
     expect = Expect::Ok;
     for u in units.iter() {
@@ -298,7 +348,7 @@ impl Prop for C11 {
         "C11"
     }
     fn rule(&self) -> &'static str {
-        "generated unit tables: 1-4 units (versions 2-5 x 32/64-bit x address size 4/8, one byte order per section set), trees of 1-19 entries with generated parents, base-type entries anywhere among the root's children, ids reserved early and added later, ids reserved and never added (negative case), sibling flags on/off, 0-6 attributes per entry over every write::AttributeValue variant with boundary payloads (block lengths around 127/128, LEB128 size steps, implicit constants around the SLEB/ULEB size difference, duplicate strings in .debug_str/.debug_line_str, enum wrappers, file indices into a line program, expressions incl. nested entry values), in-unit references forward and backward, cross-unit references in both directions, range and location lists valid for the unit's encoding. Oracle: the model itself: the output is read back with gimli::read and compared by meaning: same tags, nesting, attribute names in order, reference targets by identity marker, strings by content, lists by resolved ranges, expressions by decoded operations, sibling pointers designate the next sibling; unencodable requests must be refused. The writer's own offset-prediction debug assertions fire as panics in the dev profile. Non-trivial = >=2 units with a cross-unit and a forward in-unit reference and a variable-size attribute; distinct by choice string."
+        "generated unit tables: 1-4 units (versions 2-5 x 32/64-bit x address size 4/8, one byte order per section set), trees of 1-19 entries with generated parents, base-type entries anywhere among the root's children, ids reserved early and added later, ids reserved and never added (negative case), sibling flags on/off, 0-6 attributes per entry over every write::AttributeValue variant with boundary payloads (block lengths around 127/128, LEB128 size steps, implicit constants around the SLEB/ULEB size difference, duplicate strings in .debug_str/.debug_line_str, enum wrappers, file indices into a line program, expressions incl. nested entry values and, in attributes and in location lists, the entry-referencing operations call4 / call_ref / implicit_pointer / GNU_variable_value / GNU_parameter_ref to entries of any unit), in-unit references forward and backward, cross-unit references in both directions, range and location lists valid for the unit's encoding. Oracle: the model itself: the output is read back with gimli::read and compared by meaning: same tags, nesting, attribute names in order, reference targets by identity marker, strings by content, lists by resolved ranges, expressions by decoded operations, sibling pointers designate the next sibling; unencodable requests must be refused. The writer's own offset-prediction debug assertions fire as panics in the dev profile. Non-trivial = >=2 units with a cross-unit and a forward in-unit reference and a variable-size attribute; distinct by choice string."
     }
     fn assumptions(&self) -> Vec<&'static str> {
         vec![
